@@ -99,6 +99,8 @@ def check(index, ctx):
                 ctx.require(v.dtype == "M", "R4", pk if v.dtype == "M" else f"{name}({run.label}).forward dtype", f"returns dtype tag {v.dtype}",
                             f"returned tensor has dtype tag {v.dtype}, not the input's dtype; dtype events: " +
                             "; ".join(f"{e['loc']} {e.get('left')}/{e.get('right')}" for e in _events(r, 'dtype_mix')[:3]), cls.loc())
+                for e in _events(r, "precision_loss"):
+                    ctx.violated("R4", f"{name}: {e['function'].split('.')[-1]}: {e['text']}", e.get("why", "precision loss"), e["loc"])
                 # R5 homogeneity
                 degok = v.deg in (Fraction(1), Z)
                 ctx.require(degok, "R5", pk if degok else f"{name}({run.label}).forward degree", f"degree {v.deg}",
